@@ -1,7 +1,11 @@
 mod c02;
 mod c04;
 mod c06;
+mod c07;
 mod c11;
+mod c16;
+mod c18;
+mod c19;
 mod model;
 mod util;
 
@@ -22,6 +26,10 @@ fn main() {
         "c20" => c04::run(&args, "C20"),
         "c11" => c11::run(&args),
         "c06" => c06::run(&args),
+        "c07" => c07::run(&args),
+        "c16" => c16::run(&args),
+        "c18" => c18::run(&args),
+        "c19" => c19::run(&args),
         "kernels" => {
             println!("{:?}", kyrodb_engine::verif_hooks::simd_available());
             return;
